@@ -26,8 +26,8 @@ Inductive expr :=
 | EBin (op : binop) (e1 e2 : expr).
 
 Inductive eres := Ok (k : kind) (c : option cval) | Rejected | Fault
-  | Undef.   (* constant operands of different classes (string / bool / numeric) handed to go/constant:
-                type-assertion fault or a meaningless value, depending on the pair; not modelled further *)
+  | Undef.   (* an operand carries go/constant's `unknown` value (shift of a non-integral constant):
+                what the library does with it is not modelled *)
 
 Definition cclass (c : cval) : N := match c with CBool _ => 1 | CStr _ => 2 | _ => 3 end%N.
 
@@ -221,6 +221,9 @@ Definition in_int64 (z : Z) : bool := (Z.leb (- 2 ^ 63) z && Z.leb z (2 ^ 63 - 1
 (* an unknown constant value (constant.Shift of a non-integral operand): encoded like the harness does *)
 Definition unknown_val : cval := CStr [9; 9; 9]%N.
 
+Definition is_unknown (c : option cval) : bool :=
+  match c with Some (CStr [9; 9; 9]%N) => true | _ => false end.
+
 (* == and != do not go through the operator templates but through ComparableTo (C05) *)
 Definition eq_accept (k1 k2 : kind) (c1 c2 : option cval) : C05.Model.res :=
   let ta (a b : kind) : bool := if is_untyped_kind a then go_ta_basic a b else N.eqb a b in
@@ -264,6 +267,7 @@ Fixpoint m_eval (e : expr) : eres :=
   | EBin op e1 e2 =>
       match m_eval e1, m_eval e2 with
       | Ok k1 c1, Ok k2 c2 =>
+        if (is_unknown c1 || is_unknown c2)%bool then Undef else
         (* checkDivisionByZero *)
         let divzero :=
           match op, c2 with
